@@ -415,7 +415,7 @@ theorem AddrAgree.of_perm {e : Env} {g₁ g₂ : List Hd} (h : g₁.Perm g₂) (
 
 theorem yieldOk_apply (e : Env) {h₁ h₂ : Hd} {x y : Hd × SvcInfo} (hx : yields e h₁ = some x) (hy : yields e h₂ = some y)
     (hok : yieldOk e h₁ h₂ = true) :
-    foundOf x = foundOf y ∧ (x.2.proto = y.2.proto →
+    flagsOf x = flagsOf y ∧ (x.2.proto = y.2.proto →
       x.1.port = y.1.port ∧ x.2.ident = y.2.ident ∧ propsAgree (e.props x.1.txt) (e.props y.1.txt) = true) := by
   have e₁ := yields_fst e hx
   have e₂ := yields_fst e hy
@@ -433,8 +433,8 @@ theorem protoAgree_of (e : Env) {g : List Hd} (hc : AddrAgree e g) : ProtoAgree 
   obtain ⟨h₂, hg₂, hy'⟩ := List.mem_filterMap.mp hy
   exact (yieldOk_apply e hx' hy' (hc h₁ hg₁ h₂ hg₂).2.2).2 hp
 
-theorem foundOf_const (e : Env) {g : List Hd} (hc : AddrAgree e g) :
-    ∀ x ∈ g.filterMap (yields e), ∀ y ∈ g.filterMap (yields e), foundOf x = foundOf y := by
+theorem flagsOf_const (e : Env) {g : List Hd} (hc : AddrAgree e g) :
+    ∀ x ∈ g.filterMap (yields e), ∀ y ∈ g.filterMap (yields e), flagsOf x = flagsOf y := by
   intro x hx y hy
   obtain ⟨h₁, hg₁, hx'⟩ := List.mem_filterMap.mp hx
   obtain ⟨h₂, hg₂, hy'⟩ := List.mem_filterMap.mp hy
@@ -537,23 +537,44 @@ theorem addrAgree_of (e : Env) {hs : List Hd} (hc : HdConsistent e hs) (a : Nat)
   simp only [List.mem_filter, decide_eq_true_eq] at hx hy
   exact pairOk_parts e (hx.2.trans hy.2.symm) (hc x hx.1 y hy.1)
 
+/-- the device name (first component of what `foundOf` gives) does not reach the snapshot -/
+theorem canonCfg_name_irrel (e : Env) (a : Nat) (g : List Hd) (gy : List (Hd × SvcInfo))
+    (f f' : Nat × Bool × Option Nat) (h : f.2 = f'.2) :
+    canonCfg (cfgOf e a g gy f) = canonCfg (cfgOf e a g gy f') := by
+  rw [canonCfg_cfgOf, canonCfg_cfgOf, h]
+
+theorem ready_name_irrel (e : Env) (a : Nat) (g : List Hd) (gy : List (Hd × SvcInfo))
+    (f f' : Nat × Bool × Option Nat) : ready (cfgOf e a g gy f) = ready (cfgOf e a g gy f') := by
+  rw [ready_cfgOf, ready_cfgOf]
+
 theorem cfgSnap_eq (e : Env) {H₁ H₂ : List Hd} (h : H₁.Perm H₂) (hc : HdConsistent e H₁) (a : Nat) :
     cfgSnap e H₁ a = cfgSnap e H₂ a := by
   have hg : (H₁.filter (fun h => decide (h.addr = a))).Perm (H₂.filter (fun h => decide (h.addr = a))) := h.filter _
   have ha := addrAgree_of e hc a
-  have hf := pick_head foundOf (SameSet.of_perm (hg.filterMap (yields e))) (foundOf_const e ha)
+  have hf := pick_head flagsOf (SameSet.of_perm (hg.filterMap (yields e))) (flagsOf_const e ha)
   unfold cfgSnap rawCfg
   simp only
-  rw [← hf]
-  cases ((H₁.filter (fun h => decide (h.addr = a))).filterMap (yields e)).head?.map foundOf with
-  | none => rfl
-  | some f =>
-    obtain ⟨h₁, h₂⟩ := cfgOf_eq e a hg ha f
-    simp only [Option.map_some, Option.filter]
-    rw [← h₂]
-    split
-    · simp only [Option.map_some, h₁]
-    · rfl
+  cases h₁ : ((H₁.filter (fun h => decide (h.addr = a))).filterMap (yields e)).head? with
+  | none =>
+    cases h₂ : ((H₂.filter (fun h => decide (h.addr = a))).filterMap (yields e)).head? with
+    | none => rfl
+    | some x₂ => rw [h₁, h₂] at hf; exact absurd hf (by simp)
+  | some x₁ =>
+    cases h₂ : ((H₂.filter (fun h => decide (h.addr = a))).filterMap (yields e)).head? with
+    | none => rw [h₁, h₂] at hf; exact absurd hf (by simp)
+    | some x₂ =>
+      rw [h₁, h₂] at hf
+      simp only [Option.map_some, Option.some.injEq] at hf
+      obtain ⟨c₁, r₁⟩ := cfgOf_eq e a hg ha (foundOf x₁)
+      have c₂ := canonCfg_name_irrel e a (H₂.filter (fun h => decide (h.addr = a)))
+        ((H₂.filter (fun h => decide (h.addr = a))).filterMap (yields e)) (foundOf x₁) (foundOf x₂) hf
+      have r₂ := ready_name_irrel e a (H₂.filter (fun h => decide (h.addr = a)))
+        ((H₂.filter (fun h => decide (h.addr = a))).filterMap (yields e)) (foundOf x₁) (foundOf x₂)
+      simp only [Option.map_some, Option.filter]
+      rw [r₁, r₂]
+      split
+      · simp only [Option.map_some, c₁, c₂]
+      · rfl
 
 theorem cfgSnap_addr (e : Env) (hs : List Hd) (a : Nat) (b : Snap) (h : cfgSnap e hs a = some b) : b.addr = a := by
   unfold cfgSnap at h
